@@ -293,4 +293,30 @@ def clipSegmentSegment (a1 b1 a2 b2 : V2 K) : Option (ClipPts K × ClipPts K) :=
         ⟨s11, s20.add ((s21.sub s20).smul bc), f11, 1⟩
     some (ca, cb)
 
+/-! ## World-space and canonical-axis wrappers (split_trimesh.rs, split_segment.rs)
+
+`TriMesh::split(position, axis, bias, eps)` and `TriMesh::intersection_with_plane(position, axis, bias, eps)` only move the plane
+into the mesh's local frame and call `local_split` / `intersection_with_local_plane`;
+`{TriMesh, Segment}::canonical_split(i, ..)` and `TriMesh::canonical_intersection_with_plane(i, ..)` call the local function with
+`Vector::ith_axis(i)`. The plane transfer is closed-form and modelled here; the local mesh functions stay oracle-only. -/
+
+/-- `Vector::ith_axis(i)` (`Unit::new_unchecked` of the `i`-th basis vector); Rust panics for `i ≥ 3`. -/
+def ithAxis (i : Fin 3) : V3 K :=
+  if i.val = 0 then ⟨1, 0, 0⟩ else if i.val = 1 then ⟨0, 1, 0⟩ else ⟨0, 0, 1⟩
+
+/-- the local plane `(local_axis, bias + added_bias)` that `TriMesh::split` and `TriMesh::intersection_with_plane` hand to the
+local-space function:
+`local_axis = position.inverse_transform_unit_vector(axis)` (= `rotation.inverse() * axis`),
+`added_bias = -position.translation.vector.dot(axis)`. -/
+def planeToLocal (pos : Iso3 K) (axis : V3 K) (bias : K) : V3 K × K :=
+  let localAxis := pos.invRot axis
+  let addedBias := -(pos.t.dot axis)
+  (localAxis, bias + addedBias)
+
+namespace Segment3
+/-- `Segment::canonical_split(axis, bias, epsilon)` = `local_split(&Vector::ith_axis(axis), bias, epsilon)` -/
+def canonicalSplit (s : Segment3 K) (axis : Fin 3) (bias eps : K) : Split (Segment3 K) :=
+  (s.localSplit (ithAxis axis) bias eps).1
+end Segment3
+
 end Model
